@@ -700,8 +700,8 @@ PROPS = {
                         "grpc-go delivers stream open/close to the handler (real grpc-go on bufconn in the harness)"],
     },
     "C03": {
-        "lean_targets": ["Proofs.Props.C03"],
-        "prop_files": ["Proofs/Props/C03.lean"],
+        "lean_targets": ["Proofs.Props.C03", "Proofs.Props.C03b"],
+        "prop_files": ["Proofs/Props/C03.lean", "Proofs/Props/C03b.lean"],
         "families": [W1("C03"), SWORLD("C03"), CWORLD("C03"), META("C03")],
         "trusted_base": ["L-frame server endpoint model TunnelModel/LFrame/Server.lean; client endpoint model TunnelModel/LFrame/Client.lean"],
         "assumptions": ["as C08", "bounded transport buffering (finite K) is represented by the loop-idle observation B=1 of the harness, not by a theorem yet"],
